@@ -74,23 +74,21 @@ func (c *Command) genHelp(prefix string) string {
 //	client.Handlers.AddHandler(girc.PRIVMSG, ch)
 type CmdHandler struct {
 	prefix string
-	re     *regexp.Regexp
 
 	mu   sync.Mutex
 	cmds map[string]*Command
 }
 
-var cmdMatch = `^%s([a-z0-9-_]{1,20})(?: (.*))?$`
+// cmdMatch matches what follows the prefix: the command name, and optionally
+// a space and the arguments.
+var cmdMatch = regexp.MustCompile(`^([a-z0-9-_]{1,20})(?: (.*))?$`)
 
 // New returns a new CmdHandler based on the specified command prefix. A good
 // prefix is a single character, and easy to remember/use. E.g. "!", or ".".
+// The prefix is compared byte for byte; the returned error is always nil and
+// only kept for compatibility.
 func New(prefix string) (*CmdHandler, error) {
-	re, err := regexp.Compile(fmt.Sprintf(cmdMatch, regexp.QuoteMeta(prefix)))
-	if err != nil {
-		return nil, err
-	}
-
-	return &CmdHandler{prefix: prefix, re: re, cmds: make(map[string]*Command)}, nil
+	return &CmdHandler{prefix: prefix, cmds: make(map[string]*Command)}, nil
 }
 
 var validName = regexp.MustCompile(`^[a-z0-9-_]{1,20}$`)
@@ -157,7 +155,12 @@ func (ch *CmdHandler) Execute(client *girc.Client, event girc.Event) {
 		return
 	}
 
-	parsed := ch.re.FindStringSubmatch(event.Last())
+	text := event.Last()
+	if !strings.HasPrefix(text, ch.prefix) {
+		return
+	}
+
+	parsed := cmdMatch.FindStringSubmatch(text[len(ch.prefix):])
 	if len(parsed) != 3 {
 		return
 	}
